@@ -800,6 +800,35 @@ class Check:
         return obs
 
     # ---- replay of a sat model against the native build
+    def witness_candidates(self, ob, limit=400):
+        """candidate input tuples (python ints per obligation variable) for the native witness search: boundary values per variable width,
+        plus angle-like and large floating values"""
+        import itertools
+        per = []
+        for (n, so) in ob.vars:
+            if so == T.BOOL:
+                per.append([0, 1])
+                continue
+            w = so[1]
+            ct = {8: "int8_t", 16: "int16_t", 32: "int32_t", 64: "int64_t"}.get(w)
+            vals = []
+            if ct:
+                vals += boundary_inputs(ct, self.rng)[:40]
+            fct = {32: "float", 64: "double", 79: "long double"}.get(w)
+            if fct:
+                from fractions import Fraction
+                vals += boundary_inputs(fct, self.rng, extra=(360, 270, 540, -540, 180, 181, 90, 720, Fraction(10 ** 15 + 90), 1e6 + 0.5, -1e9))[:120]
+            per.append(list(dict.fromkeys(vals)) or [0])
+        out = []
+        if len(per) == 1:
+            out = [[v] for v in per[0]]
+        else:
+            for i in range(max(len(p_) for p_ in per)):
+                out.append([p_[i % len(p_)] for p_ in per])
+            for combo in itertools.islice(itertools.product(*[p_[:12] for p_ in per]), limit):
+                out.append(list(combo))
+        return out[:limit]
+
     def replay(self, ob, model):
         vs = []
         for (n, s), v in zip(ob.vars, model):
